@@ -30,7 +30,15 @@ Mutants(w) == {w \o <<44>>, w \o <<32, 33>>, <<58>> \o w} \cup (IF w = <<>> THEN
 Generic == {<<>>, <<120>>, <<32, 120, 32>>, <<97, 32, 32, 98>>, <<49>>, <<10, 121, 101, 115, 9>>,
             <<122, 122, 45, 110, 111, 116, 45, 97, 45, 108, 105, 116, 101, 114, 97, 108>>,     \* "zz-not-a-literal"
             <<50, 48, 50, 52, 45, 48, 50, 45, 50, 57>>, <<50, 48, 50, 51, 45, 48, 50, 45, 51, 48>>,   \* 2024-02-29, 2023-02-30
-            <<35, 70, 70, 48, 48, 65, 65>>, <<49, 44, 32, 50>>, <<101, 110>>}
+            <<35, 70, 70, 48, 48, 65, 65>>, <<49, 44, 32, 50>>, <<101, 110>>,
+            \* years beyond four digits are dates too: 10000-01-01, 12024-02-29, -10000-06-30, 12023-02-29 (no such day)
+            <<49, 48, 48, 48, 48, 45, 48, 49, 45, 48, 49>>, <<49, 50, 48, 50, 52, 45, 48, 50, 45, 50, 57>>,
+            <<45, 49, 48, 48, 48, 48, 45, 48, 54, 45, 51, 48>>, <<49, 50, 48, 50, 51, 45, 48, 50, 45, 50, 57>>,
+            \* white space of Unicode that is NOT white space of XML (NBSP, EM SPACE) is ordinary content: "1,<nbsp>2", "a<emsp>b"
+            <<49, 44, 160, 50>>, <<97, 8195, 98>>}
+\* every blank of a word replaced by NBSP / EM SPACE: collapsing (whiteSpace facet) must not touch them, patterns must not match them as blanks
+OtherSpace(w) == IF \E i \in DOMAIN w : w[i] = 32
+                 THEN {[i \in DOMAIN w |-> IF w[i] = 32 THEN c ELSE w[i]] : c \in {160, 8195}} ELSE {}
 \* literals of *other* types (every enumeration literal of every type is offered to every type in the thorough tier)
 ForeignLiterals == {<<121, 101, 115>>, <<117, 112>>, <<115, 116, 97, 114, 116>>, <<110, 111, 114, 109, 97, 108>>}
 
@@ -55,6 +63,8 @@ LeafTokens(tn) ==
   LET d == ST[tn] IN
      {Tok("str", e) : e \in d.enumcp \cup BaseLiterals(tn)}
   \cup UNION {{Tok("str", w) : w \in PatWords(pid) \cup UNION {Mutants(x) : x \in PatWords(pid)}} : pid \in UNION {d.pats[g] : g \in DOMAIN d.pats}}
+  \cup UNION {{Tok("str", v) : v \in UNION {OtherSpace(w) : w \in PatWords(pid)}} : pid \in UNION {d.pats[g] : g \in DOMAIN d.pats}}
+  \cup {Tok("str", v) : v \in UNION {OtherSpace(e) : e \in d.enumcp}}
   \cup (IF d.prim = "decimal"
         THEN {Tok("int", IntCps(n)) : n \in Bounds(d) \cup {0 - 1, 0, 1, 7}}
              \cup {FloatTok(m, e) : m \in {15, 0 - 15}, e \in {0 - 1}}                 \* +-1.5
